@@ -301,6 +301,21 @@ def run(chk):
         chk.check(terms == sorted(["cob_base", "256 * map_no", "pdo_node.node.id"]) or terms == sorted(["cob_base", "map_no * 256", "pdo_node.node.id"]),
                   "R6", f"{B}:PdoMaps.__init__ | formula", pm.loc(s), f"predefined COB-ID = {' + '.join(terms)}; expected base + 0x100*n + node id")
         chk.check("map_no < 4" in g or "map_no <= 3" in g, "R6", f"{B}:PdoMaps.__init__ | first four only", pm.loc(s), f"assigned under {g}")
+    # all 512 PDOs of a direction are looked for: the ranges the constructor iterates or filters by, with the offsets bound, cover
+    # communication records com_offset .. com_offset + 511 (map numbers 0 .. 511)
+    from .common import substitute_src
+    spans = []
+    for c in [x for x in ast.walk(pm.node) if isinstance(x, ast.Call) and dotted(x.func) == "range"]:
+        r_ = folder.try_fold(substitute_src(c, {"com_offset": 0x1400, "map_offset": 0x1600}), Scope(pm.mod, pm.cls), None)
+        if isinstance(r_, range) and len(r_) > 4:
+            spans.append((c, r_))
+    if not spans:
+        chk.unk("R6", f"{B}:PdoMaps.__init__ | all 512 PDOs", pm.loc(), "no range over the PDO numbers found")
+    for c, r_ in spans:
+        full = (r_.step == 1 and len(r_) == 512 and r_.start in (0, 1, 0x1400, 0x1600))
+        chk.check(full, "R6", f"{B}:PdoMaps.__init__ | all 512 PDOs", pm.loc(c),
+                  f"`{src(c)}` covers {len(r_)} values ({r_.start:#x}..{(r_[-1] if len(r_) else r_.start):#x}); a direction has 512 communication records, PDO 512 "
+                  f"(index offset 0x1FF) included")
     key_st = [n for n in own_nodes(pm.node) if isinstance(n, ast.Assign) and src(n.targets[0]).startswith("self.maps[")]
     for s in key_st:
         chk.check(src(s.targets[0]) == "self.maps[map_no + 1]", "R6", f"{B}:PdoMaps.__init__ | PDO numbering", pm.loc(s), f"{src(s.targets[0])}")
